@@ -23,7 +23,7 @@ def sh(cmd, cwd=WT, check=False):
 
 def main():
     base = sys.argv[1]
-    seeds = sys.argv[2:] or sorted(os.path.basename(d.rstrip("/")) for d in glob.glob(V + "/seeded/*/"))
+    seeds = sys.argv[2:] or sorted(os.path.basename(d.rstrip("/")) for d in glob.glob(V + "/seeded/*/") if not d.rstrip("/").endswith("retired"))
     head = sh("git rev-parse HEAD", cwd=R)[1].strip()
     if not os.path.isdir(WT):
         sh("git worktree add -q --detach %s HEAD" % WT, cwd=R, check=True)
